@@ -39,6 +39,14 @@ def cases(tier, seed):
         out.append({"kind": "image", "cls": "image", "idx": rep, "seed": seed})
     for rep in range(8 if tier == "quick" else 400):
         out.append({"kind": "metrics", "cls": "metrics", "idx": rep, "seed": seed})
+    # larger tensors / images (a dimension above 8 / 16 / 32 / 64; singleton and non-singleton dimensions mixed)
+    for shp in [(9, 2, 33), (17, 17, 1), (1, 20, 9), (33, 1, 2), (2, 34, 3), (12, 12, 12), (65, 2, 1), (3, 3, 40), (16, 1, 16), (1, 1, 70)]:
+        out.append({"kind": "ids", "cls": "unique_id", "shape": list(shp)})
+    for rep_ in range(8 if tier == "quick" else 32):
+        out.append({"kind": "gauss", "cls": "gauss_tensor", "idx": rep_, "seed": seed, "big": True})
+    for rep_ in range(6 if tier == "quick" else 24):
+        out.append({"kind": "image", "cls": "image", "idx": rep_, "seed": seed, "big": True})
+        out.append({"kind": "metrics", "cls": "metrics", "idx": rep_, "seed": seed, "big": True})
     nd = 200 if tier == "quick" else 2000
     for rep in range(4 if tier == "quick" else 8):
         out.append({"kind": "snr", "cls": "snr", "idx": rep, "seed": seed, "draws": nd // 4 if tier == "quick" else nd // 8})
@@ -101,6 +109,9 @@ def _gauss(spec, ctx, R):
     T = R.tensor
     rng = gen.rng_for(spec["seed"], "c18g", spec["idx"])
     I, J, K = (int(x) for x in rng.integers(1, 7, size=3))
+    if spec.get("big"):
+        I, J, K = [(9, 2, 33), (17, 17, 1), (1, 20, 9), (33, 1, 2), (2, 34, 3), (12, 12, 12), (65, 2, 1), (3, 3, 40)][spec["idx"] % 8]
+        ctx.hit("size:big_tensor")
     X = quaternion.as_quat_array(rng.standard_normal((I, J, K, 4)) * 10.0 ** float(rng.integers(-3, 4)))
     ctx.distinct(X)
     n0 = float(T.tensor_frobenius_norm(X.copy()))
@@ -119,6 +130,8 @@ def _image(spec, ctx, R):
     Q = R.qslst
     rng = gen.rng_for(spec["seed"], "c18i", spec["idx"])
     H, W = (int(x) for x in rng.integers(1, 9, size=2))
+    if spec.get("big"):
+        H, W = [(33, 40), (17, 3), (1, 65), (64, 64), (20, 19), (130, 2)][spec["idx"] % 6]
     kind = ["unit", "255", "negative", "big", "int", "tiny"][spec["idx"] % 6]
     rgb = {"unit": rng.random((H, W, 3)), "255": rng.random((H, W, 3)) * 255.0, "negative": rng.standard_normal((H, W, 3)),
            "big": rng.standard_normal((H, W, 3)) * 1e6, "int": rng.integers(0, 256, size=(H, W, 3)).astype(np.uint8),
@@ -158,6 +171,8 @@ def _metrics(spec, ctx, R):
     Q = R.qslst
     rng = gen.rng_for(spec["seed"], "c18m", spec["idx"])
     shape = tuple(int(x) for x in rng.integers(1, 7, size=int(rng.integers(1, 4))))
+    if spec.get("big"):
+        shape = [(33, 40, 3), (17, 17), (1025,), (64, 65), (20, 19, 4), (2, 130)][spec["idx"] % 6]
     kind = ["gauss", "zero", "const", "int"][spec["idx"] % 4]
     x = {"gauss": rng.standard_normal(shape), "zero": np.zeros(shape), "const": np.full(shape, 3.25),
          "int": rng.integers(0, 255, size=shape).astype(float)}[kind]
